@@ -171,7 +171,12 @@ func (fr *Frame) checkReturn(r returnInfo, ct *FuncContract) {
 	oenv := fr.specEnv(fx.entry, nil, nil)
 	env.oldEnv = oenv
 	bindResults(env, ct, fn, fn.Signature, r.vals)
-	// parameters refer to entry values (they are SSA parameters already)
+	// parameters refer to entry values, also when the body re-assigns them
+	for _, p := range fn.Params {
+		if _, ok := env.vars[p.Name()]; !ok {
+			env.vars[p.Name()] = SVal{V: fr.val(p), Ty: p.Type()}
+		}
+	}
 	for i, c := range ct.Ensures {
 		g, err := env.evalGoal(c.Expr)
 		if err != nil {
